@@ -533,6 +533,10 @@ def region_always_errs(body, blocks):
             if s["k"] == "assign" and s["place"]["l"] == 0 and not s["place"]["p"] and s["rv"]["k"] == "agg" and \
                     s["rv"].get("adt") == "std::result::Result" and s["rv"]["variant"] == "Err":
                 errb.add(x)
+        # `..?` early return: _0 = from_residual(the failure)
+        tx = body.blocks[x]["term"]
+        if tx["k"] == "call" and tx["callee"] == "std::ops::FromResidual::from_residual" and tx["dest"]["l"] == 0 and not tx["dest"]["p"]:
+            errb.add(x)
     if not errb:
         return False
     entries = [x for x in blocks if any(p not in blocks for p in body.preds()[x])] or [min(blocks)]
